@@ -36,6 +36,7 @@ Inductive full_obs :=
 | OFullYamlErr (blob : string)
 | OFullPostErr (hooks : list ohook) (notes : string) (written : list (string * string))
 | OFullOk (hooks : list ohook) (manifest : string) (notes : string) (written : list (string * string))
+| OFullWriteErr
 | OFullOther.
 
 (* A file's text is given as pieces: literal text and references to documents of the head
@@ -183,6 +184,7 @@ Definition case_ok (c : case) : bool :=
       let hooks_ok hs ohs := list_eqb2 (hook_eqb (map fst heads)) hs ohs in
       match render_full (head_table heads) go_to_lower o (chart_crds ch) (option_map pr_fun pr) files, obs with
       | FullSortErr blob, OFullYamlErr oblob => String.eqb blob oblob
+      | FullWriteErr, OFullWriteErr => true
       | FullPostErr hs notes w, OFullPostErr ohs onotes ow =>
           hooks_ok hs ohs && String.eqb notes onotes && same_map w ow
       | FullOk hs txt notes w, OFullOk ohs otxt onotes ow =>
